@@ -54,13 +54,14 @@ SORT_KEYS = {
 
 
 class GenOnce:
-    """an iterable that is not a Collection (no len)"""
+    """a one-shot iterable that is not a Collection (no len): like a generator, it is exhausted after the
+    first pass, so code that iterates its argument twice loses the items the second time"""
 
     def __init__(self, items):
-        self.items = items
+        self._it = iter(list(items))
 
     def __iter__(self):
-        return iter(list(self.items))
+        return self._it
 
 
 def mkslice(s):
